@@ -116,6 +116,35 @@ def observe(oid, stype, retr, catch, outcomes, rng):
             "attempts2": [], "fails2": [], "interval2": 0}
 
 
+def observe_exect(oid, retr, catch, timeout_s, exect, delay_ms):
+    """A Task with TimeoutSeconds under a machine-level TimeoutSeconds, the worker silent, the Task's event handled
+    `delay_ms` after it was published (a backlog, a restart): when the EXECUTION's deadline is what expires, no Retrier
+    and no Catcher -- States.ALL included -- may take the error (ErrorPolicy!Unrecoverable)."""
+    import c08
+    asl = build("Task", retr, catch, timeout_s)
+    asl["States"]["A0"] = S.P(Next="X")
+    asl = dict(asl, StartAt="A0", TimeoutSeconds=exect)
+    inp = {"a": {"k": 1}, "items": [1]}
+    ev = c08.Drive(S.scn("c07x", asl, inputs=(inp,), oracle={"f": [{"silent": True}]})).run(delay_state="X", delay_ms=delay_ms)
+    px = c08.first(ev, lambda e: e["k"] == "pub" and e.get("kind") == "event" and e.get("state") == "X")
+    entered = px["t"] if px else -1
+    attempts = [e["t"] for e in ev if e["k"] == "pub" and e.get("kind") == "rpc"]
+    notes = [e for e in ev if e["k"] == "note" and e["status"] != "RUNNING"]
+    final = {"kind": "none", "idx": 0, "error": "", "output": tagged.enc(None)}
+    if notes and notes[-1]["status"] == "SUCCEEDED":
+        took = [e.get("state") for e in ev if e["k"] == "pub" and e.get("kind") == "event" and str(e.get("state", "")).startswith("C")]
+        final = dict(final, kind="caught", idx=int(took[-1][1:])) if took else dict(final, kind="succeeded")
+    elif notes:
+        final = dict(final, kind="failed", error=(notes[-1].get("detail", {}) or {}).get("error") or "")
+    return {"id": oid, "kind": "exect", "stype": "Task",
+            "retriers": [{"errs": x["errs"], "interval": x["interval"] if x.get("interval") is not None else 1,
+                          "max": x["max"] if x.get("max") is not None else 3, "rate": list(RATES[x.get("rate")])} for x in retr],
+            "catchers": [{"errs": c["errs"], "next": "C%d" % (j + 1), "rp": rp_spec(c["rp"])} for j, c in enumerate(catch)],
+            "outcomes": [], "attempts": attempts, "fails": [], "final": final, "input": tagged.enc(inp),
+            "attempts2": [], "fails2": [], "interval2": 0,
+            "entered": entered, "handled": (entered + delay_ms) if entered >= 0 else -1, "timeout": timeout_s, "exect": exect}
+
+
 def normalise_cause(w):
     """Cause texts are not compared (only that a Cause travels with the Error)."""
     def fix(x):
@@ -294,6 +323,17 @@ def run(tier_name=None, replay=None):
         n += 1
         obs.append(observe_nested(n, stype, outer, inner, outs))
         meta[n] = {"nested": stype, "outer": outer, "inner": inner, "outcomes": outs}
+    # the execution's own timeout against every kind of handler, the Task's event handled before, between and after the deadlines
+    hs = [([{"errs": ["States.ALL"], "interval": 1, "max": 2, "rate": None}], []),
+          ([], [{"errs": ["States.ALL"], "rp": None}]),
+          ([{"errs": ["States.Timeout"], "interval": 1, "max": 1, "rate": None}], [{"errs": ["States.TaskFailed"], "rp": "$.e"}]),
+          ([], [{"errs": ["States.Timeout"], "rp": None}, {"errs": ["States.ALL"], "rp": None}])]
+    for retr, catch in hs if thorough else hs[:3]:
+        for timeout_s, exect in ((2, 5), (5, 2), (3, 3)):
+            for delay in (0, 2500, 4000, 6000, 9000) if thorough else (0, 4000, 9000):
+                n += 1
+                obs.append(observe_exect(n, retr, catch, timeout_s, exect, delay))
+                meta[n] = {"execution_timeout": exect, "task_timeout": timeout_s, "retriers": retr, "catchers": catch, "event_delayed_ms": delay}
     for i2 in (1, 3):
         n += 1
         obs.append(leak_mc_obs(n, i2))
